@@ -74,6 +74,7 @@ def run(tier, seed, rep):
         name, res, consts = mc.result()
         rep.add_model(name, res, consts)
     n_calls = sum(len(e["ins"]) for e in evs)
+    evs = [e for e in evs if e.get("op") != "panic"]      # PANIC_FILTER: statistics only (panic events were judged by TLC above)
     rep.cov["programs"] = len(ok_ids)
     rep.cov["evaluations"] = 2 * n_calls
     rep.cov["distinct_nontrivial"] = sum(len(set(inputs[i])) for i in ok_ids if by_id[i]["variants"])
